@@ -66,12 +66,33 @@ def gen(c):
             c.distinct([(sc, 'declen', L)])
     return p
 
+def loaded_keys(c, p):
+    """ISAP key objects re-created from their saved form: they accept what the original made and reject
+    what a key differing in one bit made, and the reverse (a loaded key is the key, not just a round trip)"""
+    rng = c.rng
+    for sc, klen, w in (('isap128a', 16, 0.6), ('isap128', 16, 3.0), ('isap80pq', 20, 3.5)):
+        for rep in range(2 if (c.tier == 'thorough' or w < 1) else 1):
+            k = bytearray(pattern(rng, klen, 'rand')); k2 = bytearray(k); k2[rng.randrange(klen)] ^= 1 << rng.randrange(8)
+            n = hx(pattern(rng, 16)); ad = hx(pattern(rng, rng.choice([0, 5]))); m = hx(pattern(rng, rng.choice([0, 9, 17])))
+            p.case(['isapkey.init scheme=%s obj=1 k=%s' % (sc, hx(bytes(k))), 'isapkey.save scheme=%s obj=1 save=s1' % sc,
+                    'isapkey.init scheme=%s obj=2 k=%s' % (sc, hx(bytes(k2))), 'isapkey.save scheme=%s obj=2 save=s2' % sc,
+                    'isapkey.load scheme=%s obj=3 saved=@s1' % sc, 'isapkey.load scheme=%s obj=4 saved=@s2' % sc,
+                    'isapkey.enc scheme=%s obj=1 n=%s ad=%s in=%s save=c1' % (sc, n, ad, m), 'isapkey.enc scheme=%s obj=4 n=%s ad=%s in=%s save=c4' % (sc, n, ad, m),
+                    'isapkey.dec scheme=%s obj=3 n=%s ad=%s in=@c1' % (sc, n, ad),      # loaded = original: accepted
+                    'isapkey.dec scheme=%s obj=4 n=%s ad=%s in=@c1' % (sc, n, ad),      # other key, loaded: rejected
+                    'isapkey.dec scheme=%s obj=3 n=%s ad=%s in=@c4' % (sc, n, ad),      # and the reverse
+                    'isapkey.dec scheme=%s obj=2 n=%s ad=%s in=@c4' % (sc, n, ad),      # loaded-made packet under the original of that key
+                    'isapkey.dec scheme=%s obj=1 n=%s ad=%s in=@c4' % (sc, n, ad)] +
+                   ['isapkey.free scheme=%s obj=%d' % (sc, o) for o in (1, 2, 3, 4)], cost=8 * w)
+            c.distinct([(sc, 'loaded', rep)])
+
 def run(c):
     c.mc_bg('MC_Forge')
     c.mc_bg('MC_Forge', 'MC_ForgeNeg', must_fail=True)     # a tag comparison over 15 positions must be refuted
     c.mc_bg('MC_Aead', 'MC_Aead' if c.tier == 'thorough' else 'MC_AeadQ')
     p = gen(c)
     sessions(c, p, 200 if c.tier == 'thorough' else 25)
+    loaded_keys(c, p)
     c.assumptions += ['a modified (key, nonce, AD, ciphertext||tag) verifies with probability 2^-128: every forged input is required to be rejected',
                       'forged decryptions are judged by TLC from the recorded result (negative, plaintext all zero for one-shot forms, canaries intact) after TLC has recomputed the BASE ciphertext from the specification; decryptions of valid and of arbitrary inputs are recomputed in full',
                       'ISAP is not part of the symbolic forgery model (bit-wise re-keying terms are too deep for TLC); it is covered by trace validation only']
